@@ -1,4 +1,6 @@
 import DinoProofs.Lemmas.AD
+import DinoProofs.Lemmas.ADExtra
+import DinoProofs.Lemmas.ADInterp
 import DinoProofs.Lemmas.SH
 import DinoProofs.Lemmas.Forcing
 import DinoProofs.Properties.C14
@@ -34,8 +36,10 @@ tests.  What is proved here is the structure that makes the derivatives well def
   primal result and the tangent component is the same operator applied to the tangent: the
   spherical-harmonic transforms, vertical mat-vecs and cumulative sums, the geopotential and
   temperature implicit operators, `implicit_terms`, `implicit_inverse` (a fixed matrix, because
-  the step size is static), the shallow-water implicit terms and their Schur inverse, the spectral
-  filters (static scaling), Robert–Asselin.
+  the step size is static: `stacked`, the default `split`, and `blockwise` strategies), the sparse
+  (cumulative-sum) forms of the two vertical operators, the shallow-water implicit terms and their
+  Schur inverse (on the C03 domain `1 − η²Φλ ≠ 0`), the spectral filters (static scaling),
+  Robert–Asselin.
 * **T8.3** the nested checkpointed scan equals the flat scan *as a function* (C14), for every
   `checkpoint_fn` that is the identity on values, hence anything computed from the function — in
   particular every derivative, and the tangents carried by dual-number states — is the same.
@@ -43,7 +47,12 @@ tests.  What is proved here is the structure that makes the derivatives well def
   interpolation of the tangent data (weights in `[0,1]`, summing to one: `C17.interp_convex`); in
   the query it returns `slope · ẋ` with the slope `(f_{j+1} − f_j)/(x_{j+1} − x_j)` of the cell,
   which is the exact difference quotient of `interp` on that cell, and `0` beyond the end nodes;
-  the guarded denominator is non-zero on the evaluated branch.  Held–Suarez `T_eq` is the maximum
+  the guarded denominator is non-zero on the evaluated branch.  The same two statements for
+  `linear_interp_with_linear_extrap` and `_linear_interp_with_safe_extrap` (the default of
+  `interp_*_to_*`): same weights for the tangent data; slope of the active cell, the end cells
+  extrapolating, for the query (NaN exactly where the primal is NaN).  Derivatives with respect to
+  the NODES (`interp_hybrid_to_sigma`) and of `_dot_interp` are not covered by theorems
+  (correspondence and probes only).  Held–Suarez `T_eq` is the maximum
   of a smooth expression and a constant: the dual evaluation returns the tangent of the active
   branch, and that tangent *is* the derivative (`HasDerivAt`) along the tangent direction.
 * **T8.5** (extension) soundness of dual-number evaluation over `ℝ`: `Tracks F t` (the tangent
@@ -51,7 +60,11 @@ tests.  What is proved here is the structure that makes the derivatives well def
   arithmetic operation and external function of the model, with the side conditions that make the
   derivative finite (denominator `≠ 0`, `log` of a non-zero and `pow` of a positive argument); the
   moist pointwise kernels: tangent = symbolic derivative, linear in the tangent, denominators
-  positive on the admissible set `0 ≤ q ≤ 1`, `0 < Cp_v/Cp`.
+  positive on the admissible set `0 ≤ q ≤ 1`, `0 < Cp_v/Cp`; `moistAdiabatic_eq_kernels` ties the
+  kernels to `MoistPrimitiveEquations.nodalTemperatureAdiabaticTendency` of `Dino.Dynamics`.
+
+`jax.checkpoint` is MODELLED as the identity (`AD.checkpoint f := f`, an assumption about JAX, not a
+theorem): `checkpoint_id` only records that definition.
 -/
 
 set_option linter.unusedSectionVars false
@@ -198,6 +211,67 @@ theorem implicitInverse_dual (minv : List (List K)) (X : Col (Dual K)) :
     mapCol Dual.d (inverseStacked (constM minv) X) = inverseStacked minv (mapCol Dual.d X) :=
   ⟨isProj_v.inverseStacked_const minv X, isProj_d.inverseStacked_const minv X⟩
 
+/-- **T8.2** `implicit_inverse(method='split')` — the repository default: nine products with the
+ sub-blocks of the same static inverse matrix -/
+theorem implicitInverseSplit_dual (minv : List (List K)) (X : Col (Dual K)) :
+    mapCol Dual.v (inverseSplit (constM minv) X) = inverseSplit minv (mapCol Dual.v X) ∧
+    mapCol Dual.d (inverseSplit (constM minv) X) = inverseSplit minv (mapCol Dual.d X) :=
+  ⟨isProj_v.inverseSplit_const minv X, isProj_d.inverseSplit_const minv X⟩
+
+/-- **T8.2** `implicit_inverse(method='blockwise')` with static `η`, `λ`, implicit matrix `m` and the
+ two externally inverted blocks; `gopD` / `hopNegD` are the matrix-free vertical products
+ (`get_geopotential_diff`, `−get_temperature_implicit`) run at `Dual K`, each being its own
+ derivative (`hg`, `hh`: true of the dense and of the sparse forms, see
+ `implicitInverseBlockwise_dense_dual`, `geopotentialDiffSparse_dual`, `tempImplicitSparse_dual`) -/
+theorem implicitInverseBlockwise_dual (eta lam : K) (m divInv tpInv : List (List K))
+    (gop hopNeg : List K → List K) (gopD hopNegD : List (Dual K) → List (Dual K))
+    (hg : ∀ X, vals (gopD X) = gop (vals X) ∧ tans (gopD X) = gop (tans X))
+    (hh : ∀ X, vals (hopNegD X) = hopNeg (vals X) ∧ tans (hopNegD X) = hopNeg (tans X))
+    (X : Col (Dual K)) :
+    mapCol Dual.v (inverseBlockwise (const eta) (const lam) (constM m) (constM divInv)
+        (constM tpInv) gopD hopNegD X)
+      = inverseBlockwise eta lam m divInv tpInv gop hopNeg (mapCol Dual.v X) ∧
+    mapCol Dual.d (inverseBlockwise (const eta) (const lam) (constM m) (constM divInv)
+        (constM tpInv) gopD hopNegD X)
+      = inverseBlockwise eta lam m divInv tpInv gop hopNeg (mapCol Dual.d X) :=
+  ⟨isProj_v.inverseBlockwise_const eta lam m divInv tpInv gop hopNeg gopD hopNegD
+      (fun X => (hg X).1) (fun X => (hh X).1) X,
+   isProj_d.inverseBlockwise_const eta lam m divInv tpInv gop hopNeg gopD hopNegD
+      (fun X => (hg X).2) (fun X => (hh X).2) X⟩
+
+/-- **T8.2** the blockwise inverse with the dense vertical products (static `R`, `α`, `H`) -/
+theorem implicitInverseBlockwise_dense_dual (eta lam R : K) (al : List K)
+    (h m divInv tpInv : List (List K)) (X : Col (Dual K)) :
+    mapCol Dual.v (inverseBlockwise (const eta) (const lam) (constM m) (constM divInv)
+        (constM tpInv) (geopotentialDiffDense (const R) (constL al)) (matvec (constM h)) X)
+      = inverseBlockwise eta lam m divInv tpInv (geopotentialDiffDense R al) (matvec h)
+          (mapCol Dual.v X) ∧
+    mapCol Dual.d (inverseBlockwise (const eta) (const lam) (constM m) (constM divInv)
+        (constM tpInv) (geopotentialDiffDense (const R) (constL al)) (matvec (constM h)) X)
+      = inverseBlockwise eta lam m divInv tpInv (geopotentialDiffDense R al) (matvec h)
+          (mapCol Dual.d X) :=
+  implicitInverseBlockwise_dual eta lam m divInv tpInv _ _ _ _
+    (fun T => geopotentialDiff_dual R al T) (fun D => matvec_dual h D) X
+
+/-- **T8.2** `get_geopotential_diff(method='sparse')` (reverse cumulative sum) with static `R`, `α` -/
+theorem geopotentialDiffSparse_dual (R : K) (al : List K) (T : List (Dual K)) :
+    vals (geopotentialDiffSparse (const R) (constL al) T) = geopotentialDiffSparse R al (vals T) ∧
+    tans (geopotentialDiffSparse (const R) (constL al) T) = geopotentialDiffSparse R al (tans T) :=
+  ⟨isProj_v.geopotentialDiffSparse_const R al T, isProj_d.geopotentialDiffSparse_const R al T⟩
+
+/-- **T8.2** `PrimitiveEquations.implicit_terms` with any vertical operators that are their own
+ derivatives (in particular the sparse forms) -/
+theorem implicitTerms_dual_of (lam R : K) (ds T : List K) (gop hop : List K → List K)
+    (gopD hopD : List (Dual K) → List (Dual K))
+    (hg : ∀ X, vals (gopD X) = gop (vals X) ∧ tans (gopD X) = gop (tans X))
+    (hh : ∀ X, vals (hopD X) = hop (vals X) ∧ tans (hopD X) = hop (tans X)) (X : Col (Dual K)) :
+    mapCol Dual.v (implicitTerms (const lam) (const R) (constL ds) (constL T) gopD hopD X)
+      = implicitTerms lam R ds T gop hop (mapCol Dual.v X) ∧
+    mapCol Dual.d (implicitTerms (const lam) (const R) (constL ds) (constL T) gopD hopD X)
+      = implicitTerms lam R ds T gop hop (mapCol Dual.d X) :=
+  ⟨isProj_v.implicitTerms_const lam R ds T gop hop gopD hopD (fun X => (hg X).1) (fun X => (hh X).1) X,
+   isProj_d.implicitTerms_const lam R ds T gop hop gopD hopD (fun X => (hg X).2) (fun X => (hh X).2) X⟩
+
 /-- **T8.2** `_make_filter_fn(scaling)` (exponential / diffusion filter: the scaling is a static
  numpy array): tangent = filter of the tangent tree -/
 theorem filterTree_dual (ss : List Nat) (s : List K) (tree : List (List Nat × List (Dual K))) :
@@ -219,8 +293,11 @@ open Implicit
 
 /-- **T8.2** shallow-water `implicit_terms` and `implicit_inverse` (Schur complement) with static
  `η`, `λ`, `Φ`: the tangent is the same map applied to the tangent.  `1 − η²Φλ` is the
- denominator of C03; nothing here divides by a differentiated quantity. -/
-theorem shallowWater_dual (eta lam phi : K) (D P : Dual K) :
+ denominator of C03; nothing here divides by a differentiated quantity.  `hden` is the named guard
+ of that static division (DESIGN §3): the equations also hold at `1 − η²Φλ = 0` in the model, but
+ only because its totalised `x/0 = 0` makes both sides zero where JAX returns inf/nan, so the
+ statement is restricted to the C03 domain. -/
+theorem shallowWater_dual (eta lam phi : K) (hden : 1 - eta * eta * phi * lam ≠ 0) (D P : Dual K) :
     ((swImplicit (const lam) (const phi) D P).1.d, (swImplicit (const lam) (const phi) D P).2.d)
       = swImplicit lam phi D.d P.d ∧
     ((swInverse (const eta) (const lam) (const phi) D P).1.d,
@@ -234,8 +311,11 @@ theorem shallowWater_dual (eta lam phi : K) (D P : Dual K) :
 /-- **T8.2** the spectral operators that multiply by a static table along the total-wavenumber
  axis — `Grid.laplacian`, `Grid.inverse_laplacian`, `Grid.clip_wavenumbers` — with a static radius:
  the tangent is the same operator applied to the tangent (nothing divides by a differentiated
- quantity: the eigenvalues are constants of the grid) -/
-theorem spectralScaling_dual (ly : Grid.Layout) (r : K) (n : Nat) (X : List (List (Dual K))) :
+ quantity: the eigenvalues are constants of the grid).  `hr : r ≠ 0` is the named guard of the
+ static divisions `l(l+1)/r²` and `1/eigenvalue` (at `r = 0` the model's `x/0 = 0` would make the
+ statement hold where JAX returns inf/nan). -/
+theorem spectralScaling_dual (ly : Grid.Layout) (r : K) (hr : r ≠ 0) (n : Nat)
+    (X : List (List (Dual K))) :
     tansM (Grid.laplacian ly (const r) X) = Grid.laplacian ly r (tansM X) ∧
     tansM (Grid.inverseLaplacian ly (const r) X) = Grid.inverseLaplacian ly r (tansM X) ∧
     tansM (Grid.clip ly n X) = Grid.clip ly n (tansM X) ∧
@@ -245,6 +325,34 @@ theorem spectralScaling_dual (ly : Grid.Layout) (r : K) (n : Nat) (X : List (Lis
   ⟨isProj_d.laplacian_const ly r X, isProj_d.inverseLaplacian_const ly r X, isProj_d.clip_const ly n X,
    isProj_v.laplacian_const ly r X, isProj_v.inverseLaplacian_const ly r X, isProj_v.clip_const ly n X⟩
 
+/-- **T8.2** `get_temperature_implicit(method='sparse')` (cumulative sums of `Δσ·divergence`) with a
+ static matrix `H` and static thicknesses.  `nzD` / `nz` are the tests `!= 0` of the guard
+ `(down_weights != 0).any()` at `Dual K` / at `K`; they agree on constants (`hnz`), the weights
+ being static -/
+theorem tempImplicitSparse_dual (nzD : Dual K → Bool) (nz : K → Bool)
+    (hnz : ∀ v, nzD (Dual.const v) = nz v) (ds : List K) (h : List (List K)) (D : List (Dual K)) :
+    vals (tempImplicitSparse nzD (constL ds) (constM h) D) = tempImplicitSparse nz ds h (vals D) ∧
+    tans (tempImplicitSparse nzD (constL ds) (constM h) D) = tempImplicitSparse nz ds h (tans D) :=
+  ⟨isProj_v.tempImplicitSparse_const nzD nz hnz ds h D,
+   isProj_d.tempImplicitSparse_const nzD nz hnz ds h D⟩
+
+/-- **T8.2** `implicit_terms` with the sparse vertical operators -/
+theorem implicitTermsSparse_dual (nzD : Dual K → Bool) (nz : K → Bool)
+    (hnz : ∀ v, nzD (Dual.const v) = nz v) (lam R : K) (ds T al : List K) (h : List (List K))
+    (X : Col (Dual K)) :
+    mapCol Dual.v (implicitTerms (const lam) (const R) (constL ds) (constL T)
+        (_root_.Dino.Sigma.geopotentialDiffSparse (const R) (constL al))
+        (tempImplicitSparse nzD (constL ds) (constM h)) X)
+      = implicitTerms lam R ds T (_root_.Dino.Sigma.geopotentialDiffSparse R al)
+          (tempImplicitSparse nz ds h) (mapCol Dual.v X) ∧
+    mapCol Dual.d (implicitTerms (const lam) (const R) (constL ds) (constL T)
+        (_root_.Dino.Sigma.geopotentialDiffSparse (const R) (constL al))
+        (tempImplicitSparse nzD (constL ds) (constM h)) X)
+      = implicitTerms lam R ds T (_root_.Dino.Sigma.geopotentialDiffSparse R al)
+          (tempImplicitSparse nz ds h) (mapCol Dual.d X) :=
+  implicitTerms_dual_of lam R ds T _ _ _ _ (fun Y => geopotentialDiffSparse_dual R al Y)
+    (fun Y => tempImplicitSparse_dual nzD nz hnz ds h Y) X
+
 end linearField
 
 /-! ## T8.3 scan nesting and checkpointing -/
@@ -252,7 +360,9 @@ section scans
 open Comb
 variable {C X Y : Type}
 
-/-- `jax.checkpoint` is the identity on values -/
+/-- `jax.checkpoint` is MODELLED as the identity on values: this is the definition
+ `AD.checkpoint f := f` recorded as a lemma — a modelling assumption about JAX (rematerialisation
+ changes the schedule of the reverse pass, not any value), not a result -/
 theorem checkpoint_id {α β : Type} (f : α → β) : checkpoint f = f := rfl
 
 /-- the recursion with an explicit `checkpoint_fn` that is the identity on values is the
@@ -456,6 +566,92 @@ theorem interp_dual_query_outside {eps : K} (h0 : 0 ≤ eps) (xp fp : List K) (X
     (h : X.v < xp.headD 0 ∨ xp.getLastD 0 < X.v) :
     (interp (const eps) (constL xp) (constL fp) X).d = 0 := by
   rw [(interp_dual_query h0 xp fp X).2, interpSlope_outside eps xp fp X.v h, zero_mul]
+
+/-! ### `linear_interp_with_linear_extrap` and `_linear_interp_with_safe_extrap` -/
+
+/-- **T8.4** derivative of `linear_interp_with_linear_extrap` with respect to the data: the value is
+ the primal result and the tangent is the same interpolation / extrapolation (same nodes, same
+ query, hence the same weights) of the tangent data -/
+theorem linearExtrap_dual_data (xp : List K) (FP : List (Dual K)) (x : K) :
+    (linearExtrap (constL xp) FP (const x)).v = linearExtrap xp (vals FP) x ∧
+    (linearExtrap (constL xp) FP (const x)).d = linearExtrap xp (tans FP) x :=
+  ⟨isProj_v.linearExtrap_data xp FP x, isProj_d.linearExtrap_data xp FP x⟩
+
+/-- the active cell of `searchsorted(side='right')` + `clip(·, 1, n−1)` on increasing nodes: the
+ first cell for every query below the first node, the last cell for every query at or above the
+ last node (these two cases are the linear extrapolation), cell `j` for `x_j ≤ x < x_{j+1}` -/
+theorem cellSlope_cases {xp : List K} (hi : Inc xp) (hn : 2 ≤ xp.length) (fp : List K) (x : K) :
+    (x < xp.getD 0 0 → cellSlope xp fp x = slopeAt xp fp 0) ∧
+    (xp.getD (xp.length - 1) 0 ≤ x → cellSlope xp fp x = slopeAt xp fp (xp.length - 2)) ∧
+    (∀ j, j + 1 < xp.length → xp.getD j 0 ≤ x → x < xp.getD (j + 1) 0 →
+      cellSlope xp fp x = slopeAt xp fp j) := by
+  have hk := ssr_le_length xp x
+  refine ⟨fun h => ?_, fun h => ?_, fun j hj h1 h2 => ?_⟩
+  · have h0 : ¬ 0 < ssr xp x := by
+      rw [ssr_spec hi x (by omega : 0 < xp.length)]; exact not_le.mpr h
+    have hc : cellIdx xp x = 1 := by unfold cellIdx clipIdx; omega
+    unfold cellSlope; rw [hc]
+  · have h0 : xp.length - 1 < ssr xp x := (ssr_spec hi x (by omega)).mpr h
+    have hc : cellIdx xp x = xp.length - 1 := by unfold cellIdx clipIdx; omega
+    unfold cellSlope; rw [hc]
+    congr 1
+  · have hc : cellIdx xp x = j + 1 := by
+      rcases cell_cases hi hj (x := x) ⟨Or.inr h1, Or.inr h2.le⟩ with h | ⟨_, hx, _⟩
+      · exact h
+      · exact absurd hx h2.ne
+    unfold cellSlope; rw [hc, Nat.add_sub_cancel]
+
+/-- **T8.4** derivative of `linear_interp_with_linear_extrap` with respect to the query, on
+ increasing nodes: the value is the primal result and the tangent is the slope
+ `(f_{j+1} − f_j)/(x_{j+1} − x_j)` of the active cell (see `cellSlope_cases`: the end cells serve
+ every query beyond the end nodes) times the tangent of the query -/
+theorem linearExtrap_dual_query {xp fp : List K} (hi : Inc xp) (hl : xp.length = fp.length)
+    (hn : 2 ≤ xp.length) (X : Dual K) :
+    (linearExtrap (constL xp) (constL fp) X).v = linearExtrap xp fp X.v ∧
+    (linearExtrap (constL xp) (constL fp) X).d = cellSlope xp fp X.v * X.d := by
+  refine ⟨linearExtrap_dual_query_v xp fp X, linearExtrap_dual_query_d xp fp X hl hn ?_⟩
+  obtain ⟨hu1, hu2⟩ := cellIdx_bounds xp X.v hn
+  exact ne_of_gt (sub_pos.mpr (hi.getD_lt (by omega) (by omega)))
+
+/-- **T8.4** `linear_interp_with_linear_extrap` is piecewise affine in the query with exactly that
+ slope: on any two queries that select the same cell the difference quotient is `cellSlope` -/
+theorem linearExtrap_difference_quotient {xp fp : List K} (hi : Inc xp)
+    (hl : xp.length = fp.length) (hn : 2 ≤ xp.length) (x x' : K)
+    (hc : cellIdx xp x' = cellIdx xp x) :
+    linearExtrap xp fp x' - linearExtrap xp fp x = cellSlope xp fp x * (x' - x) := by
+  obtain ⟨hu1, hu2⟩ := cellIdx_bounds xp x hn
+  have hne : xp.getD (cellIdx xp x) 0 - xp.getD (cellIdx xp x - 1) 0 ≠ 0 :=
+    ne_of_gt (sub_pos.mpr (hi.getD_lt (by omega) (by omega)))
+  rw [linearExtrap_eq_cell xp fp x hl hn, linearExtrap_eq_cell xp fp x' hl hn, hc]
+  unfold cellFormula cellSlope slopeAt
+  have e : cellIdx xp x - 1 + 1 = cellIdx xp x := by omega
+  rw [e]
+  field_simp
+  ring
+
+/-- **T8.4** derivative of `_linear_interp_with_safe_extrap(n = k)` with respect to the data: NaN
+ (`none`) exactly where the primal result is NaN; elsewhere value = primal result and tangent =
+ the same interpolation of the tangent data -/
+theorem safeInterp_dual_data (eps : K) (k : Nat) (xp : List K) (FP : List (Dual K)) (x : K) :
+    (safeInterp (const eps) k (constL xp) FP (const x)).map Dual.v
+      = safeInterp eps k xp (vals FP) x ∧
+    (safeInterp (const eps) k (constL xp) FP (const x)).map Dual.d
+      = safeInterp eps k xp (tans FP) x :=
+  ⟨isProj_v.safeInterp_data eps k xp FP x, isProj_d.safeInterp_data eps k xp FP x⟩
+
+/-- **T8.4** derivative of `_linear_interp_with_safe_extrap(n = k)` with respect to the query, on
+ separated nodes: NaN exactly where the primal result is NaN (more than `k` end-cell widths beyond
+ the node range: `C17.safeInterp_eq`); elsewhere the value is the primal result and the tangent is
+ the slope of the active cell of the ORIGINAL node set — the end cells extrapolating — times the
+ tangent of the query (padding does not change the slope: `cellSlope_padN`) -/
+theorem safeInterp_dual_query {eps : K} {xp fp : List K} (h0 : 0 ≤ eps) (hs : Sep eps xp)
+    (hl : xp.length = fp.length) (hn : 2 ≤ xp.length) (k : Nat) (X : Dual K) :
+    (safeInterp (const eps) k (constL xp) (constL fp) X).map Dual.v = safeInterp eps k xp fp X.v ∧
+    (safeInterp (const eps) k (constL xp) (constL fp) X).map Dual.d
+      = (safeInterp eps k xp fp X.v).map (fun _ => cellSlope xp fp X.v * X.d) := by
+  obtain ⟨hv, hd⟩ := AD.safeInterp_dual_query h0 k xp fp X
+  refine ⟨hv, ?_⟩
+  rw [hd, coreSlope_padN h0 hs hl hn k X.v]
 
 end interp
 
@@ -776,6 +972,39 @@ theorem tOmegaOverSigmaSp_dual (vert : Vert K) (phys : Phys K) (tref : List K)
 
 end column2
 
+/-! ## T8.5 the kernels ARE the pointwise bodies of the Dynamics model -/
+section moistKernels
+open Dynamics
+variable {K M N : Type}
+  [Add K] [Sub K] [Mul K] [Div K] [Neg K] [Zero K] [One K]
+  [Add M] [Sub M] [Neg M] [Zero M] [SMul K M]
+  [Add N] [Sub N] [Neg N] [Zero N] [Mul N] [One N] [SMul K N] [Div N]
+
+/-- **T8.5** the link between the kernel theorems and the model of the code:
+ `MoistPrimitiveEquations.nodalTemperatureAdiabaticTendency` of `Dino.Dynamics` (the function the
+ correspondence `ad adiabatic moist` runs) is built pointwise from `AD.variationKernel` and
+ `AD.humidityKernel` with `g = R_v/R`, `h = Cp_v/(R/κ)`: the temperature field handed to the second
+ `_t_omega_over_sigma_sp` is `zipWith variationKernel T' q + zipWith humidityKernel T_ref q`.
+ For every scalar / field type (in particular `N = Dual K`), so every theorem about the two
+ kernels (`variationKernel_d`, `humidityKernel_d`, `*_tracks`, `kernel_denominator_pos`) is about
+ the Dynamics definition; editing the lambdas of `Dynamics.lean` breaks this theorem. -/
+theorem moistAdiabatic_eq_kernels (eq : PrimitiveEquations K M N) (aux : Diag N) :
+    MoistPrimitiveEquations.nodalTemperatureAdiabaticTendency eq aux
+      = (MoistPrimitiveEquations.getSpecificHumidity aux.tracers).map fun q =>
+          Col.smul eq.phys.kappa (Col.add
+            (eq.tOmegaOverSigmaSp eq.tRef aux.uDotGradLogSp aux.uDotGradLogSp)
+            (eq.tOmegaOverSigmaSp
+              (Col.add
+                (List.zipWith (variationKernel (eq.phys.Rvapor / eq.phys.R)
+                  (eq.phys.CpVapor / (eq.phys.R / eq.phys.kappa))) aux.temperatureVariation q)
+                (List.zipWith (humidityKernel (eq.phys.Rvapor / eq.phys.R)
+                  (eq.phys.CpVapor / (eq.phys.R / eq.phys.kappa))) eq.tRef q))
+              (Col.add aux.uDotGradLogSp aux.divergence) aux.uDotGradLogSp)) := by
+  unfold MoistPrimitiveEquations.nodalTemperatureAdiabaticTendency
+  cases MoistPrimitiveEquations.getSpecificHumidity aux.tracers <;> rfl
+
+end moistKernels
+
 /-! ## T8.5 the moist kernels carry their derivatives -/
 section kernelTracks
 variable {T Q : ℝ → Dual ℝ} {t : ℝ}
@@ -892,6 +1121,76 @@ example : (variationKernel (8 / 5 : ℚ) (93 / 50) (⟨250, 1⟩ : Dual ℚ) ⟨
     = (1 + (8 / 5 - 1) * (1 / 50)) / (1 + (93 / 50 - 1) * (1 / 50)) := by
   rw [variationKernel_d _ _ _ _ (by norm_num)]
   norm_num
+
+/-! ### second-round additions -/
+
+open Dynamics in
+/-- T8.5 link: a two-layer column with `R = 1`, `R_v = 8/5`, `Cp_v = 4`, `κ = 2/7`, non-constant
+ `T_ref`, humidity `[1/50, 1/100]`: the Dynamics function returns a value (`some`), it is the
+ right-hand side of `moistAdiabatic_eq_kernels`, and a missing humidity tracer gives `none` on both
+ sides -/
+def exEq : PrimitiveEquations ℚ ℚ ℚ :=
+  pointEq ⟨[0, 1 / 2, 1], [-2, -1 / 2]⟩ ⟨0, 0, 1, 8 / 5, 4, 2 / 7⟩ [250, 260]
+
+open Dynamics in
+example :
+    MoistPrimitiveEquations.nodalTemperatureAdiabaticTendency exEq
+        (pointDiag [1, 2] [3, -1] [1 / 2, 1 / 3] [(specificHumidityKey, [1 / 50, 1 / 100])])
+      = some [78437 / 9828, -2013167 / 58884] ∧
+    MoistPrimitiveEquations.nodalTemperatureAdiabaticTendency exEq
+        (pointDiag [1, 2] [3, -1] [1 / 2, 1 / 3] []) = none := by
+  constructor <;> decide +kernel
+
+open Dynamics in
+/-- … and at `N = Dual ℚ` (what the correspondence differentiates) the theorem applies verbatim -/
+example (aux : Diag (Dual ℚ)) :=
+  moistAdiabatic_eq_kernels (pointEq ⟨[0, 1 / 2, 1], [-2, -1 / 2]⟩ ⟨0, 0, 1, 8 / 5, 4, 2 / 7⟩
+    [250, 260] : PrimitiveEquations ℚ (Dual ℚ) (Dual ℚ)) aux
+
+/-- T8.2 `split` (the default): a 3 × 3 inverse (one layer), tangent of the solve = solve of the
+ tangent `(1, 0, −1)` -/
+example : mapCol Dual.d (Implicit.inverseSplit (constM [[1, 2, 3], [4, 5, 6], [7, 8, 10]])
+      (⟨[⟨1, 1⟩], [⟨2, 0⟩], ⟨3, -1⟩⟩ : Implicit.Col (Dual ℚ)))
+    = Implicit.inverseSplit [[1, 2, 3], [4, 5, 6], [7, 8, 10]] ⟨[1], [0], -1⟩ :=
+  (implicitInverseSplit_dual _ _).2
+
+example : (Implicit.inverseSplit ([[1, 2, 3], [4, 5, 6], [7, 8, 10]] : List (List ℚ)) ⟨[1], [0], -1⟩).d
+    = [-2] := by decide +kernel
+
+/-- T8.2 sparse: the guard test on dual numbers looks at the value; on constants it is the test at `ℚ` -/
+example : ∀ v : ℚ, (fun a : Dual ℚ => decide (a.v ≠ 0)) (Dual.const v) = (fun a : ℚ => decide (a ≠ 0)) v :=
+  fun _ => rfl
+
+example : tans (Implicit.tempImplicitSparse (fun a : Dual ℚ => decide (a.v ≠ 0)) (constL [1 / 3, 2 / 3])
+      (constM [[1, 2], [3, 4]]) [⟨1, 1⟩, ⟨2, -1⟩]) = ([1, 1] : List ℚ) := by
+  rw [(tempImplicitSparse_dual _ (fun a : ℚ => decide (a ≠ 0)) (fun _ => rfl) _ _ _).2]
+  decide +kernel
+
+/-- the guards of `shallowWater_dual` / `spectralScaling_dual` on admissible constants
+ (`η = 1/10`, `λ = −2`, `Φ = 3`; unit radius) -/
+example : (1 : ℚ) - 1 / 10 * (1 / 10) * 3 * (-2) ≠ 0 ∧ (1 : ℚ) ≠ 0 := by constructor <;> norm_num
+
+/-- T8.4 `linear_interp_with_linear_extrap`, nodes `[0, 1, 3]`, data `[1, 2, 5]`: beyond the last
+ node (query 4) the tangent is the slope 3/2 of the last cell, below the first node (query −1) the
+ slope 1 of the first cell — where `interp` has tangent 0 (`interp_dual_query_outside`) -/
+example : (Interp.linearExtrap (constL [0, 1, 3]) (constL [1, 2, 5]) (⟨4, 1⟩ : Dual ℚ)).d = 3 / 2 ∧
+    (Interp.linearExtrap (constL [0, 1, 3]) (constL [1, 2, 5]) (⟨-1, 1⟩ : Dual ℚ)).d = 1 := by
+  have hi : Interp.Inc ([0, 1, 3] : List ℚ) := C17.exSep.inc C17.exEps_nonneg
+  rw [(linearExtrap_dual_query hi (fp := [1, 2, 5]) rfl (by decide) ⟨4, 1⟩).2,
+    (linearExtrap_dual_query hi (fp := [1, 2, 5]) rfl (by decide) ⟨-1, 1⟩).2]
+  constructor <;> decide +kernel
+
+/-- T8.4 `_linear_interp_with_safe_extrap(n = 1)` on the same nodes: one end-cell width beyond the
+ last node (up to 5) the result is a number with the tangent of the last cell; beyond (query 6) the
+ primal and the dual evaluation are both NaN -/
+example :
+    (Interp.safeInterp (Dual.const C17.exEps) 1 (constL [0, 1, 3]) (constL [1, 2, 5]) (⟨4, 1⟩ : Dual ℚ)).map
+        Dual.d = some (3 / 2) ∧
+    (Interp.safeInterp (Dual.const C17.exEps) 1 (constL [0, 1, 3]) (constL [1, 2, 5]) (⟨6, 1⟩ : Dual ℚ)).map
+        Dual.d = none := by
+  rw [(safeInterp_dual_query C17.exEps_nonneg C17.exSep (fp := [1, 2, 5]) rfl (by decide) 1 ⟨4, 1⟩).2,
+    (safeInterp_dual_query C17.exEps_nonneg C17.exSep (fp := [1, 2, 5]) rfl (by decide) 1 ⟨6, 1⟩).2]
+  constructor <;> decide +kernel
 
 end examples
 
